@@ -7,13 +7,13 @@ func init() {
 			ID: id, Title: title,
 			Kernels: []Kernel{
 				{Name: "symschema", Pkg: "merger", Files: []string{"merger/c03.go"}, Entry: "VerifMerge", Mode: "seq", Native: true,
-					Quick: map[string]int{"services": 2, "kinds": 7, "property": prop}, Thorough: map[string]int{"services": 3, "kinds": 3, "property": prop},
+					Quick: map[string]int{"services": 2, "kinds": 7, "property": prop}, Thorough: map[string]int{"services": 2, "kinds": 7, "property": prop},
 					Reach: reach, Functions: fns, Known: known},
 				{Name: "symschema-plain-id", Pkg: "merger", Files: []string{"merger/c03.go"}, Entry: "VerifMerge", Mode: "seq",
 					Quick: map[string]int{"services": 2, "kinds": 4, "plainid": 1, "property": prop}, Thorough: map[string]int{"services": 3, "kinds": 4, "plainid": 1, "property": prop},
 					Reach: reach, Functions: fns, Known: knownP},
 				{Name: "symschema-three-slim", Pkg: "merger", Files: []string{"merger/c03.go"}, Entry: "VerifMerge", Mode: "seq",
-					Quick: map[string]int{"services": 3, "kinds": 3, "slim": 1, "property": prop}, Thorough: map[string]int{"services": 3, "kinds": 3, "slim": 1, "property": prop},
+					Quick: map[string]int{"services": 3, "kinds": 3, "slim": 1, "property": prop}, Thorough: map[string]int{"services": 3, "kinds": 7, "slim": 1, "property": prop},
 					Reach: reach, Functions: fns, Known: known3},
 			},
 			Assume: []string{
@@ -22,7 +22,7 @@ func init() {
 				"SymSchema descriptor: per service one shared type name T with symbolic kind (absent/object/object implementing Node/enum/input/union/scalar), field subset of {f1,f2}, f1's type in {Int,String} with or without an argument with a default, enum value / union member subsets, a shared root field, Query.node present or not; rendered to concrete SDL per path",
 				"gqlparser.LoadSchema (service schemas and the final re-load) runs natively; gqlparser's formatter is interpreted",
 			},
-			Outside: []string{"schemas outside the descriptor (directives, descriptions, interfaces other than Node, more than one shared type)", "more than 3 services"},
+			Outside: []string{"schemas outside the descriptor (directives, descriptions, interfaces other than Node, more than one shared type)", "more than 3 services", "three services with the root-field toggles of the two-service descriptor (3 x 10^6 paths: did not finish in an hour)"},
 		})
 	}
 	mk("C03", "The merged schema is exactly the union of the service schemas", 3, []string{"merged schema checked"}, nil, nil, "C03-node-field-in-some-services-only", "C03-node-shaped-root-field")
